@@ -57,8 +57,10 @@ CONSTANTS
     ListSubjectChecked, \* fetched list credential must have credentialSubject.id = the URL named in the entry
     RevIssuerChecked,   \* RegisterRevocation: issuer = credential id prefix = owner of the proof key, signature valid
     ResignBeforeExpiry, \* Credential(): re-sign when no more than MinLeft is left
+    RenewCreatedAt,     \* a refreshed copy counts as new for the cache TTL. The code: FALSE - the upsert (gorm OnConflict UpdateAll) leaves
+                        \* created_at of an existing row alone, so after the first TTL every verification downloads the list again
     Procs,              \* goroutines for the split Entry transaction ({} = atomic transactions only)
-    Ghost,              \* TRUE: lastV records the verification / serve made by the last step (behaviour generation)
+    RowLock,            \* Entry(): the issuer's page rows are locked (SELECT .. FOR UPDATE) until the transaction ends
     Hist
 
 None == "none"
@@ -74,7 +76,6 @@ Outsider == "x"
 
 NoCred == [iss |-> "-", kind |-> "-", list |-> NoList, slot |-> 0]
 NoCopy == [has |-> FALSE, bits |-> {}, fresh |-> FALSE, from |-> NoList, signer |-> "-"]
-NoV == [c |-> "-", n |-> "-", v |-> "-"]
 
 VARIABLES
     nIssued,   \* number of credentials issued so far
@@ -86,15 +87,13 @@ VARIABLES
     ticks, forges,
     must,      \* ghost: [Nodes -> SUBSET Creds] credentials the node is obliged to reject
                \*        (genuine revocation received / list refreshed from the issuer after the bit was set)
-    lastV,     \* ghost (Ghost = TRUE only): what the last step observed, or NoV
     epc, esnap,\* split Entry transaction: control point and the row read under the lock, per goroutine
     hist
 
-vars == <<nIssued, cred, pages, revoked, known, cache, ticks, forges, must, lastV, epc, esnap, hist>>
-view == <<nIssued, cred, pages, revoked, known, cache, ticks, forges, must, lastV, epc, esnap>>
+vars == <<nIssued, cred, pages, revoked, known, cache, ticks, forges, must, epc, esnap, hist>>
+view == <<nIssued, cred, pages, revoked, known, cache, ticks, forges, must, epc, esnap>>
 
 Log(e) == hist' = IF Hist THEN Append(hist, e) ELSE hist
-Seen(c, n, v) == lastV' = IF Ghost THEN [c |-> c, n |-> n, v |-> v] ELSE NoV
 
 Init ==
     /\ nIssued = 0
@@ -106,7 +105,6 @@ Init ==
     /\ cache = [n \in Nodes |-> [l \in Lists |-> NoCopy]]
     /\ ticks = 0 /\ forges = 0
     /\ must = [n \in Nodes |-> {}]
-    /\ lastV = NoV
     /\ epc = [p \in Procs |-> "idle"]
     /\ esnap = [p \in Procs |-> [i |-> "-", page |-> 0, last |-> 0]]
     /\ hist = <<>>
@@ -131,7 +129,7 @@ AllocPages(i, pg, sl) == [pages EXCEPT ![i] = [Extend(@, pg) EXCEPT ![pg].last =
 
 \* pg, sl: the position handed out (model: NextAlloc; trace validation: as observed)
 IssueObs(i, kind, pg, sl) ==
-    /\ nIssued < MaxCreds /\ Quiet /\ pg \in 1..MaxPages /\ sl \in Slots
+    /\ Procs = {} /\ nIssued < MaxCreds /\ pg \in 1..MaxPages /\ sl \in Slots
     /\ LET c == CredName(nIssued + 1) IN
        /\ nIssued' = nIssued + 1
        /\ IF kind = "sl"
@@ -140,7 +138,6 @@ IssueObs(i, kind, pg, sl) ==
           ELSE /\ cred' = [cred EXCEPT ![c] = [iss |-> i, kind |-> "net", list |-> NoList, slot |-> 0]]
                /\ pages' = pages
        /\ Log([a |-> "Issue", i |-> i, kind |-> kind, c |-> c, page |-> IF kind = "sl" THEN pg ELSE 0, slot |-> IF kind = "sl" THEN sl ELSE 0])
-    /\ lastV' = NoV
     /\ UNCHANGED <<revoked, known, cache, ticks, forges, must, epc, esnap>>
 
 Issue(i, kind) == IssueObs(i, kind, NextAlloc(i).page, NextAlloc(i).slot)
@@ -159,7 +156,6 @@ RevokeStatus(c) ==
        ELSE /\ pages' = [pages EXCEPT ![l[1]][l[2]].bits = @ \cup {cred[c].slot}, ![l[1]][l[2]].left = Validity]
             /\ revoked' = revoked \cup {c}
             /\ Log([a |-> "RevokeStatus", c |-> c, res |-> "ok"])
-    /\ lastV' = NoV
     /\ UNCHANGED <<nIssued, cred, known, cache, ticks, forges, must, epc, esnap>>
 
 \* did:nuts credential: signed revocation published on the network (and kept in the issuer store)
@@ -167,7 +163,6 @@ RevokeNet(c) ==
     /\ c \in Own /\ cred[c].kind = "net"
     /\ revoked' = revoked \cup {c}
     /\ Log([a |-> "RevokeNet", c |-> c, res |-> IF c \in revoked THEN "already" ELSE "ok"])
-    /\ lastV' = NoV
     /\ UNCHANGED <<nIssued, cred, pages, known, cache, ticks, forges, must, epc, esnap>>
 
 (***************************************************************************)
@@ -179,7 +174,6 @@ ServePages(l) == [pages EXCEPT ![l[1]][l[2]].left = LeftAfterServe(l)]
 Serve(l) ==
     /\ Exists(l) /\ Quiet
     /\ pages' = ServePages(l)
-    /\ Seen("-", l[1], "served")
     /\ Log([a |-> "Serve", i |-> l[1], p |-> l[2]])
     /\ UNCHANGED <<nIssued, cred, revoked, known, cache, ticks, forges, must, epc, esnap>>
 
@@ -193,7 +187,6 @@ DeliverObs(c, k, n, res) ==
     /\ forges' = IF k = "genuine" THEN forges ELSE forges + 1
     /\ known' = IF res THEN [known EXCEPT ![n] = @ \cup {c}] ELSE known
     /\ must' = IF k = "genuine" THEN [must EXCEPT ![n] = @ \cup {c}] ELSE must
-    /\ lastV' = NoV
     /\ Log([a |-> "Deliver", c |-> c, k |-> k, n |-> n])
     /\ UNCHANGED <<nIssued, cred, pages, revoked, cache, ticks, epc, esnap>>
 Deliver(c, k, n) == DeliverObs(c, k, n, k = "genuine" \/ ~RevIssuerChecked)
@@ -201,13 +194,16 @@ Deliver(c, k, n) == DeliverObs(c, k, n, k = "genuine" \/ ~RevIssuerChecked)
 (***************************************************************************)
 (* verifier.Verify: IsRevoked(id), then credentialStatus.Verify             *)
 (***************************************************************************)
-OtherList(l) == <<CHOOSE j \in Issuers : j # l[1], 1>>
+\* "another list": the same issuer's other page if there is one, else page 1 of the other issuer
+OtherPage(l) == <<l[1], IF l[2] = 1 THEN 2 ELSE 1>>
+OtherIssuerList(l) == <<CHOOSE j \in Issuers : j # l[1], 1>>
 Stale(n, l) == ~cache[n][l].has \/ ~cache[n][l].fresh
 GenuineCopy(l) == [has |-> TRUE, bits |-> Pg(l).bits, fresh |-> TRUE, from |-> l, signer |-> l[1]]
 \* the list credential the issuer node produces for this GET (NoList: 404 / unreachable / answered by the attacker)
 Produced(l, src) ==
     CASE src = "up" -> IF Exists(l) THEN l ELSE NoList
-      [] src = "otherlist" -> IF Cardinality(Issuers) > 1 /\ Exists(OtherList(l)) THEN OtherList(l) ELSE NoList
+      [] src = "otherlist" -> IF Exists(OtherPage(l)) THEN OtherPage(l)
+                              ELSE IF Cardinality(Issuers) > 1 /\ Exists(OtherIssuerList(l)) THEN OtherIssuerList(l) ELSE NoList
       [] OTHER -> NoList
 \* what the client receives
 Answer(l, src) ==
@@ -246,9 +242,10 @@ VerifyL(c, n, src, lic) ==
                /\ (src \in ForgedSrcs => forges < MaxForge /\ c \in Own)
                /\ forges' = IF src \in ForgedSrcs THEN forges + 1 ELSE forges
                /\ pages' = IF fetch /\ pl # NoList THEN ServePages(pl) ELSE pages
-               /\ cache' = IF ok THEN [cache EXCEPT ![n][l] = a] ELSE cache
-               /\ must' = IF ok /\ src = "up" THEN [must EXCEPT ![n] = @ \cup RevokedOn(l)] ELSE must
-    /\ Seen(c, n, ModelVerdict(c, n, src, lic))
+               /\ cache' = IF ok THEN [cache EXCEPT ![n][l] = [a EXCEPT !.fresh = RenewCreatedAt \/ ~cache[n][l].has]] ELSE cache
+               \* obligation: the node refreshed the list from the issuer node for a credential of the list's own issuer
+               \* (a download for the outsider's credential does not count: the node may refuse a list not issued by x)
+               /\ must' = IF ok /\ src = "up" /\ cred[c].kind = "sl" THEN [must EXCEPT ![n] = @ \cup RevokedOn(l)] ELSE must
     /\ Log([a |-> "Verify", c |-> c, n |-> n, src |-> src, v |-> ModelVerdict(c, n, src, lic)])
     /\ UNCHANGED <<nIssued, cred, revoked, known, ticks, epc, esnap>>
 
@@ -258,7 +255,6 @@ Verify(c, n, src) == VerifyL(c, n, src, ListIssuerChecked)
 LocalVerdict(c) == IF Exists(cred[c].list) /\ cred[c].slot \in Pg(cred[c].list).bits THEN "revoked" ELSE "valid"
 VerifyLocal(c) ==
     /\ Local /\ Issued(c) /\ cred[c].kind # "net" /\ Quiet
-    /\ Seen(c, "local", LocalVerdict(c))
     /\ Log([a |-> "VerifyLocal", c |-> c, v |-> LocalVerdict(c)])
     /\ UNCHANGED <<nIssued, cred, pages, revoked, known, cache, ticks, forges, must, epc, esnap>>
 
@@ -268,7 +264,6 @@ Tick ==
     /\ ticks' = ticks + 1
     /\ pages' = [i \in Issuers |-> [p \in 1..Len(pages[i]) |-> [pages[i][p] EXCEPT !.left = Dec(@)]]]
     /\ cache' = [n \in Nodes |-> [l \in Lists |-> [cache[n][l] EXCEPT !.fresh = FALSE]]]
-    /\ lastV' = NoV
     /\ Log([a |-> "Tick"])
     /\ UNCHANGED <<nIssued, cred, revoked, known, forges, must, epc, esnap>>
 
@@ -283,11 +278,10 @@ Locked(i) == \E q \in Procs : epc[q] = "locked" /\ esnap[q].i = i /\ esnap[q].pa
 \* seen < Len(pages[i]): the page list is the one of the statement snapshot (a page inserted meanwhile is not seen)
 EntryRead(p, i, seen) ==
     /\ epc[p] = "idle" /\ nIssued + Cardinality({q \in Procs : epc[q] = "locked"}) < MaxCreds
-    /\ ~Locked(i)
+    /\ (RowLock => ~Locked(i))
     /\ seen \in 0..Len(pages[i]) /\ (seen < Len(pages[i]) => seen = Len(pages[i]) - 1 /\ seen > 0)
     /\ esnap' = [esnap EXCEPT ![p] = [i |-> i, page |-> seen, last |-> IF seen = 0 THEN 0 ELSE pages[i][seen].last]]
     /\ epc' = [epc EXCEPT ![p] = "locked"]
-    /\ lastV' = NoV
     /\ Log([a |-> "EntryRead", p |-> p, i |-> i, seen |-> seen])
     /\ UNCHANGED <<nIssued, cred, pages, revoked, known, cache, ticks, forges, must>>
 EntryWrite(p) ==
@@ -305,11 +299,10 @@ EntryWrite(p) ==
                /\ pages' = AllocPages(s.i, pg, sl)
                /\ Log([a |-> "EntryWrite", p |-> p, res |-> "ok"])
     /\ epc' = [epc EXCEPT ![p] = "idle"]
-    /\ lastV' = NoV
     /\ UNCHANGED <<revoked, known, cache, ticks, forges, must, esnap>>
 
 Next ==
-    \/ \E i \in Issuers, k \in Kinds : Procs = {} /\ Issue(i, k)
+    \/ \E i \in Issuers, k \in Kinds : Issue(i, k)
     \/ \E c \in Own : RevokeStatus(c) \/ RevokeNet(c)
     \/ \E l \in Lists : Serve(l)
     \/ \E c \in Own, n \in Nodes : \E k \in {"genuine"} \cup RevForgeKinds : Deliver(c, k, n)
